@@ -1,34 +1,486 @@
-"""VirtualArray support, ArrayGenerator, SliceGenerator, ArrayCache (src/python/virtual.cpp) -- placeholder."""
+"""ArrayGenerator, SliceGenerator, ArrayCache and the VirtualArray helpers (src/python/virtual.cpp).
+
+The C++ halves (PyArrayGenerator / PyArrayCache in bridge/akbridge_p_virtual.cpp) hold one reference to a Python
+"state" object and call back into this module for everything the binding does with py::object members.
+"""
 from __future__ import absolute_import
 
-_MSG = ("akext: %s needs the virtual-array section of the bridge (generator/cache callbacks), "
-        "which is not wired yet")
+import ctypes
+import importlib
+import weakref
+from ctypes import c_void_p, c_char_p, c_int, c_int64, POINTER, byref
+
+from akext import _lib
+from akext import content as _content
+from akext import forms as _forms
+from akext import identities as _identities
+from akext._util import FILENAME, CastError, arg_int64, arg_string, cast_int64, cast_string, dict2parameters, _badarg
+
+
+def _fn(line):
+    return FILENAME("virtual.cpp", line)
+
+
+def _obj(address):
+    return ctypes.cast(address, ctypes.py_object).value
+
+
+class _GenState(object):
+    """callable_, args_, kwargs_ of PyArrayGenerator"""
+    __slots__ = ("callable", "args", "kwargs")
+
+    def __init__(self, callable, args, kwargs):
+        self.callable, self.args, self.kwargs = callable, args, kwargs
+
+
+class _CacheState(object):
+    """mutablemapping_ of PyArrayCache: None or a weak reference"""
+    __slots__ = ("ref",)
+
+    def __init__(self, mutablemapping):
+        if mutablemapping is None:
+            self.ref = None
+        else:
+            self.ref = weakref.ref(mutablemapping)
+
+    def is_broken(self):
+        if self.ref is None:
+            return False
+        return self.ref() is None
+
+    def mutablemapping(self):
+        if self.ref is None:
+            return None
+        out = self.ref()
+        if out is None:
+            raise RuntimeError("PyArrayCache has lost its weak reference to mapping" + _fn(375))
+        return out
+
+
+# ---------------------------------------------------------------- callbacks
+
+def _decode(key, n):
+    return ctypes.string_at(key, n).decode("utf-8", "surrogateescape")
+
+
+@ctypes.CFUNCTYPE(c_void_p, c_void_p)
+def _cb_generate(state):
+    try:
+        st = _obj(state)
+        out = st.callable(*st.args, **st.kwargs)
+        layout = importlib.import_module("awkward").to_layout(out, False, False)
+        h = _content.unbox_content(layout)
+        return _lib.ptr(_lib.L.akp_shallow_copy(h))
+    except BaseException as err:
+        _lib.set_pending(err)
+        return None
+
+
+@ctypes.CFUNCTYPE(c_int, c_void_p, c_int)
+def _cb_gen_repr(state, which):
+    try:
+        st = _obj(state)
+        if which == 0:
+            text, nonempty = cast_string(st.callable.__repr__()), 1
+        elif which == 1:
+            nonempty = 1 if len(st.args) != 0 else 0
+            text = cast_string(st.args.__repr__()) if nonempty else b""
+        else:
+            nonempty = 1 if len(st.kwargs) != 0 else 0
+            text = cast_string(st.kwargs.__repr__()) if nonempty else b""
+        _lib.L.akp_cb_set_str(text, len(text))
+        return nonempty
+    except BaseException as err:
+        _lib.set_pending(err)
+        return -1
+
+
+@ctypes.CFUNCTYPE(c_int, c_void_p)
+def _cb_gen_caches(state):
+    try:
+        st = _obj(state)
+        for arg in st.args:
+            if isinstance(arg, ArrayCache):
+                _lib.L.akp_cb_push_cache(arg._h)
+        return 0
+    except BaseException as err:
+        _lib.set_pending(err)
+        return -1
+
+
+@ctypes.CFUNCTYPE(c_int, c_void_p, c_void_p)
+def _cb_gen_equal(a, b):
+    try:
+        x, y = _obj(a), _obj(b)
+        return 1 if (x.callable is y.callable and x.args is y.args and x.kwargs is y.kwargs) else 0
+    except BaseException as err:
+        _lib.set_pending(err)
+        return -1
+
+
+@ctypes.CFUNCTYPE(c_void_p, c_void_p, c_void_p, c_int64, POINTER(c_int))
+def _cb_cache_get(state, key, n, status):
+    try:
+        st = _obj(state)
+        pykey = _decode(key, n)
+        mapping = st.mutablemapping()
+        try:
+            out = mapping.__getitem__(pykey)
+        except Exception:
+            status[0] = 0
+            return None
+        h = _content.unbox_content(out)
+        p = _lib.ptr(_lib.L.akp_shallow_copy(h))
+        status[0] = 1
+        return p
+    except BaseException as err:
+        _lib.set_pending(err)
+        status[0] = -1
+        return None
+
+
+@ctypes.CFUNCTYPE(c_int, c_void_p, c_void_p, c_int64, c_void_p)
+def _cb_cache_set(state, key, n, boxed):
+    try:
+        try:
+            st = _obj(state)
+            pykey = _decode(key, n)
+            mapping = st.mutablemapping()
+        except BaseException:
+            _content._free(boxed)
+            raise
+        if mapping is not None:
+            mapping.__setitem__(pykey, _content._box(boxed))
+        else:
+            _content._free(boxed)
+        return 0
+    except BaseException as err:
+        _lib.set_pending(err)
+        return -1
+
+
+@ctypes.CFUNCTYPE(c_int, c_void_p)
+def _cb_cache_broken(state):
+    try:
+        return 1 if _obj(state).is_broken() else 0
+    except BaseException as err:
+        _lib.set_pending(err)
+        return -1
+
+
+@ctypes.CFUNCTYPE(c_int, c_void_p)
+def _cb_cache_repr(state):
+    try:
+        text = cast_string(_obj(state).mutablemapping().__repr__())
+        _lib.L.akp_cb_set_str(text, len(text))
+        return 0
+    except BaseException as err:
+        _lib.set_pending(err)
+        return -1
+
+
+_CALLBACKS = (_cb_generate, _cb_gen_repr, _cb_gen_caches, _cb_gen_equal, _cb_cache_get, _cb_cache_set,
+              _cb_cache_broken, _cb_cache_repr)
+_installed = [False]
+
+
+def _install():
+    if not _installed[0]:
+        _lib.L.akp_virtual_set_callbacks(*[ctypes.cast(f, c_void_p).value for f in _CALLBACKS])
+        _installed[0] = True
+
+
+# ---------------------------------------------------------------- instance registries (pybind11 returns the existing
+# Python wrapper when a std::shared_ptr to an already wrapped C++ object is cast)
+
+_cache_instances = weakref.WeakValueDictionary()
+_gen_instances = weakref.WeakValueDictionary()
+
+
+def _wrap_cache(h):
+    """cast of std::shared_ptr<PyArrayCache>; takes ownership of the handle"""
+    raw = _lib.L.akp_cache_raw(h)
+    existing = _cache_instances.get(raw)
+    if existing is not None:
+        _lib.L.akp_cache_free(h)
+        return existing
+    self = object.__new__(ArrayCache)
+    self._h = h
+    _cache_instances[raw] = self
+    return self
+
+
+def _wrap_gen(h):
+    raw = _lib.L.akp_gen_raw(h)
+    existing = _gen_instances.get(raw)
+    if existing is not None:
+        _lib.L.akp_gen_free(h)
+        return existing
+    cid = _lib.L.akp_gen_classid(h)
+    if cid == 1:
+        cls = ArrayGenerator
+    elif cid == 2:
+        cls = SliceGenerator
+    else:
+        _lib.L.akp_gen_free(h)
+        raise ValueError("VirtualArray's generator is not a Python function" + FILENAME("content.cpp", 2955))
+    self = object.__new__(cls)
+    self._h = h
+    _gen_instances[raw] = self
+    return self
+
+
+def _caches_from_ptrs():
+    out = []
+    for p in _lib.ptrs():
+        if not _lib.L.akp_cache_state(p):
+            _lib.L.akp_cache_free(p)
+            raise RuntimeError("VirtualArray's cache is not a PyArrayCache" + FILENAME("content.cpp", 1340))
+        out.append(_wrap_cache(p))
+    return out
 
 
 def caches_of_content(h):
-    from akext import _lib
-    n = _lib.L.akp_caches_count(h)
-    if n < 0:
-        _lib.raise_error()
-    if n == 0:
-        return []
-    raise NotImplementedError(_MSG % "caches")
+    _install()
+    _lib.rc(_lib.L.akp_caches(h))
+    return _caches_from_ptrs()
 
 
-def virtualarray_new(generator, cache, cache_key, identities, parameters):
-    raise NotImplementedError(_MSG % "VirtualArray")
+def _form_arg(form, who, line):
+    """form.cast<ak::Form*>()->shallow_copy(): (handle or None); the bridge makes the copy"""
+    if form is None:
+        return None
+    if isinstance(form, _forms.Form):
+        return form._h
+    raise ValueError(who + " 'form' must be an ak.forms.Form or None" + _fn(line))
 
 
-class ArrayGenerator(object):
-    def __init__(self, *args, **kwargs):
-        raise NotImplementedError(_MSG % "ArrayGenerator")
+def _length_arg(length, who, line):
+    if length is None:
+        return -1
+    try:
+        return cast_int64(length)
+    except CastError:
+        raise ValueError(who + " 'length' must be an int or None" + _fn(line))
 
 
-class SliceGenerator(object):
-    def __init__(self, *args, **kwargs):
-        raise NotImplementedError(_MSG % "SliceGenerator")
+class _GeneratorBase(object):
+    __slots__ = ("_h", "__weakref__")
+
+    def __del__(self):
+        h = getattr(self, "_h", None)
+        if h and _lib.L is not None:
+            self._h = None
+            _lib.L.akp_gen_free(h)
+
+    @property
+    def form(self):
+        return _forms.share(_lib.ptr(_lib.L.akp_gen_form(self._h)))
+
+    @property
+    def length(self):
+        length = _lib.L.akp_gen_length(self._h)
+        if length < 0:
+            return None
+        return length
+
+    @property
+    def caches(self):
+        _lib.rc(_lib.L.akp_gen_caches(self._h))
+        return _caches_from_ptrs()
+
+    def __call__(self):
+        return _content._boxc(_lib.L.akp_gen_generate_and_check(self._h))
+
+    def __repr__(self):
+        return _lib.string(_lib.L.akp_gen_tostring(self._h))
+
+    def with_form(self, form):
+        fh = _forms.form_arg(form, "with_form")
+        return _wrap_gen(_lib.ptr(_lib.L.akp_gen_with_form(self._h, fh)))
+
+    def with_length(self, length):
+        return _wrap_gen(_lib.ptr(_lib.L.akp_gen_with_length(self._h, arg_int64(length, "with_length"))))
+
+
+_DEFAULT_ARGS = ()          # py::arg("args") = py::tuple(0): one object shared by all calls
+_DEFAULT_KWARGS = {}        # py::arg("kwargs") = py::dict(): likewise
+
+
+class ArrayGenerator(_GeneratorBase):
+    __slots__ = ()
+
+    def __init__(self, callable, args=_DEFAULT_ARGS, kwargs=_DEFAULT_KWARGS, form=None, length=None):
+        _install()
+        if not isinstance(args, tuple):
+            raise _badarg("ArrayGenerator", args, "tuple")
+        if not isinstance(kwargs, dict):
+            raise _badarg("ArrayGenerator", kwargs, "dict")
+        fh = _form_arg(form, "ArrayGenerator", 224)
+        cpplength = _length_arg(length, "ArrayGenerator", 234)
+        state = _GenState(callable, args, kwargs)
+        self._h = _lib.ptr(_lib.L.akp_pygen_new(fh, cpplength, id(state)))
+        _gen_instances[_lib.L.akp_gen_raw(self._h)] = self
+
+    def _state(self):
+        return _obj(_lib.L.akp_gen_state(self._h))
+
+    callable = property(lambda self: self._state().callable)
+    args = property(lambda self: self._state().args)
+    kwargs = property(lambda self: self._state().kwargs)
+
+    def _with_state(self, state):
+        return _wrap_gen(_lib.ptr(_lib.L.akp_pygen_with_state(self._h, id(state))))
+
+    def with_callable(self, callable):
+        st = self._state()
+        return self._with_state(_GenState(callable, st.args, st.kwargs))
+
+    def with_args(self, args):
+        if not isinstance(args, tuple):
+            raise _badarg("with_args", args, "tuple")
+        st = self._state()
+        return self._with_state(_GenState(st.callable, args, st.kwargs))
+
+    def with_kwargs(self, kwargs):
+        if not isinstance(kwargs, dict):
+            raise _badarg("with_kwargs", kwargs, "dict")
+        st = self._state()
+        return self._with_state(_GenState(st.callable, st.args, kwargs))
+
+
+class SliceGenerator(_GeneratorBase):
+    __slots__ = ()
+
+    def __init__(self, content, slice, form=None, length=None):
+        _install()
+        fh = _form_arg(form, "SliceGenerator", 309)
+        cpplength = _length_arg(length, "SliceGenerator", 319)
+        cppslice = _content.toslice(slice)
+        ch = _content.unbox_content(content)
+        self._h = _lib.ptr(_lib.L.akp_slicegen_new(fh, cpplength, ch, cppslice.h))
+        _gen_instances[_lib.L.akp_gen_raw(self._h)] = self
+
+    @property
+    def content(self):
+        return _content._sharec(_lib.L.akp_slicegen_content(self._h))
 
 
 class ArrayCache(object):
-    def __init__(self, *args, **kwargs):
-        raise NotImplementedError(_MSG % "ArrayCache")
+    __slots__ = ("_h", "__weakref__")
+
+    def __init__(self, mutablemapping):
+        _install()
+        state = _CacheState(mutablemapping)
+        self._h = _lib.ptr(_lib.L.akp_cache_new(id(state)))
+        _cache_instances[_lib.L.akp_cache_raw(self._h)] = self
+
+    def __del__(self):
+        h = getattr(self, "_h", None)
+        if h and _lib.L is not None:
+            self._h = None
+            _lib.L.akp_cache_free(h)
+
+    def _state(self):
+        return _obj(_lib.L.akp_cache_state(self._h))
+
+    @property
+    def is_broken(self):
+        return self._state().is_broken()
+
+    @property
+    def mutablemapping(self):
+        return self._state().mutablemapping()
+
+    def __repr__(self):
+        return _lib.string(_lib.L.akp_cache_tostring(self._h))
+
+    def __getitem__(self, key):
+        key = arg_string(key, "__getitem__")
+        ok = c_int(0)
+        p = _lib.L.akp_cache_get(self._h, key, len(key), byref(ok))
+        if not ok.value:
+            _lib.raise_error()
+        return _content._box(p)
+
+    def __setitem__(self, key, value):
+        key = arg_string(key, "__setitem__")
+        _lib.rc(_lib.L.akp_cache_set(self._h, key, len(key), _content.unbox_content(value)))
+
+    def __delitem__(self, key):
+        key = arg_string(key, "__delitem__")
+        self.mutablemapping.__delitem__(key.decode("utf-8", "surrogateescape"))
+
+    def __iter__(self):
+        return self.mutablemapping.__iter__()
+
+    def __len__(self):
+        return self.mutablemapping.__len__()
+
+
+for _c in (ArrayGenerator, SliceGenerator, ArrayCache):
+    _c.__module__ = "awkward._ext"
+
+
+# ---------------------------------------------------------------- VirtualArray helpers (content.VirtualArray)
+
+def virtualarray_new(generator, cache, cache_key, identities, parameters):
+    _install()
+    if isinstance(generator, (ArrayGenerator, SliceGenerator)):
+        gh = generator._h
+    else:
+        raise ValueError("VirtualArray 'generator' must be an ArrayGenerator or a SliceGenerator"
+                         + FILENAME("content.cpp", 2899))
+    ch = None
+    if cache is not None:
+        if isinstance(cache, ArrayCache):
+            ch = cache._h
+        else:
+            raise ValueError("VirtualArray 'cache' must be an ArrayCache or None" + FILENAME("content.cpp", 2910))
+    ids = None
+    ks, vs = None, None
+    if cache_key is not None:
+        try:
+            cppcache_key = cast_string(cache_key)
+        except CastError:
+            raise ValueError("VirtualArray 'cache_key' must be a string or None" + FILENAME("content.cpp", 2921))
+    else:
+        cppcache_key = None
+    ids = _identities.unbox_none(identities)
+    ks, vs = dict2parameters(parameters)
+    return _lib.ptr(_lib.L.akp_virtual_new(ids, _lib.cstrs(ks), _lib.cstrs(vs), len(ks), gh, ch, cppcache_key,
+                                           0 if cppcache_key is None else len(cppcache_key)))
+
+
+def virtualarray_generator(h):
+    _install()
+    return _wrap_gen(_lib.ptr(_lib.L.akp_virtual_generator(h)))
+
+
+def virtualarray_cache(h):
+    _install()
+    p = _lib.ptr(_lib.L.akp_virtual_cache(h))
+    if not p:
+        return None
+    if not _lib.L.akp_cache_state(p):
+        _lib.L.akp_cache_free(p)
+        raise RuntimeError("VirtualArray's cache is not a PyArrayCache" + FILENAME("content.cpp", 2971))
+    return _wrap_cache(p)
+
+
+def virtualarray_peek_array(h):
+    _install()
+    return _lib.ptr(_lib.L.akp_virtual_peek_array(h))
+
+
+def virtualarray_array(h):
+    _install()
+    return _lib.ptr(_lib.L.akp_virtual_array(h))
+
+
+def virtualarray_cache_key(h):
+    return _lib.string(_lib.L.akp_virtual_cache_key(h))
+
+
+def virtualarray_ptr_lib(h):
+    return _lib.rc(_lib.L.akp_virtual_ptr_lib(h))
